@@ -96,10 +96,7 @@ class Names:
             f = self.f
             gens = [c for c in local_callees(f, self.roster) if self._has_listener(c)]
             out = {}
-            for g in gens:
-                cs = calls_of(f, g)
-                b = f.bodies[g]
-                tparams = [n for n in b.j["generics"] if not n.startswith("<") and n not in ("F", "IN_CHECK")]
+            def classify(cs):
                 kinds = []
                 if MV + "get_pawn_quiets" in cs:
                     kinds.append("Pawn")
@@ -109,6 +106,23 @@ class Names:
                     kinds.append("King")
                 if not kinds and any(c.endswith("::pseudo_legals") or "SlidingPiece" in c for c in cs):
                     kinds.append("Slider")
+                return kinds
+            callers = {}
+            for k2, b2 in f.bodies.items():
+                if b2.crate.startswith("cozy_chess"):
+                    owner = k2.split("::{closure")[0]
+                    for bb_, t_ in b2.calls():
+                        cn = callee_name(t_)
+                        if cn:
+                            callers.setdefault(cn, set()).add(owner)
+            for g in gens:
+                cs = set(calls_of(f, g))
+                if not classify(cs):
+                    # the look-up sits in a helper used by this generator alone
+                    for h in local_callees(f, g):
+                        if not self._has_listener(h) and callers.get(h, set()) <= {g}:
+                            cs |= calls_of(f, h)
+                kinds = classify(cs)
                 if len(kinds) != 1 or kinds[0] in out:
                     raise MissingAnchor("generator roles (cannot classify %s: %s)" % (g.rsplit("::", 1)[-1], kinds))
                 out[kinds[0]] = g
